@@ -4,6 +4,7 @@ package c20
 import (
 	"encoding/json"
 	"fmt"
+	"math/big"
 	"reflect"
 	"sort"
 	"strings"
@@ -59,6 +60,7 @@ var (
 	int256T    = reflect.TypeOf(tl.Int256{})
 	msgAddrT   = reflect.TypeOf(tlb.MsgAddress{})
 	magicT     = reflect.TypeOf(tlb.Magic(0))
+	bigIntT    = reflect.TypeOf(big.Int{})
 	bitStringT = reflect.TypeOf(boc.BitString{})
 )
 
@@ -171,6 +173,25 @@ func roundTrip(c *core.Ctx, t reflect.Type, v reflect.Value) error {
 			return fmt.Errorf("%s: JSON %s parsed into a destination that held %s gives a different value: %v", name, trunc(string(data)), trunc(string(pj)), err)
 		}
 		c.Class("parsed into a used destination")
+	}
+	// big integers are structs that the library (and its users) copy by value; a copy taken after one decode must
+	// not change when the variable it was copied from is the destination of the next decode
+	if t.Kind() == reflect.Struct && t.ConvertibleTo(bigIntT) {
+		if prev, gerr := genValue(c, t); gerr == nil {
+			if pj, err := json.Marshal(prev.Interface()); err == nil {
+				dst := reflect.New(t)
+				if err := json.Unmarshal(data, dst.Interface()); err == nil {
+					kept := reflect.New(t).Elem()
+					kept.Set(dst.Elem())
+					if json.Unmarshal(pj, dst.Interface()) == nil {
+						if err := tlbgen.Equal(v, kept); err != nil {
+							return fmt.Errorf("%s: a by-value copy of the number parsed from %s changed when %s was parsed into the variable it was copied from: %v", name, trunc(string(data)), trunc(string(pj)), err)
+						}
+						c.Class("by-value copy of a big integer kept across the next decode")
+					}
+				}
+			}
+		}
 	}
 	// the same value embedded in containers: value/pointer receiver mistakes surface here
 	type wrap struct {
@@ -333,4 +354,6 @@ func TestEnum(t *testing.T) {
 	core.Extra("c20/roundtrip", "non_integer_types", other)
 }
 
-func TestReplay(t *testing.T) { core.Replay(t, jsonCheck, addrCheck, envelopeCheck, concurrentCheck) }
+func TestReplay(t *testing.T) {
+	core.Replay(t, jsonCheck, addrCheck, envelopeCheck, concurrentCheck, cellHistory)
+}
